@@ -174,6 +174,7 @@ struct Plan {
     late: Vec<usize>,          // indices answered only after the timeout has passed
     cancel: Vec<usize>,        // callers (1-based) aborted after their request was read (async / ws)
     batch: bool,
+    subscribe: bool,           // ws: a notification subscriber exists
 }
 
 fn run_plan(kind: Kind, plan: &Plan, rt: &tokio::runtime::Runtime, log: &Arc<Log>, rng: &mut StdRng) {
@@ -289,7 +290,7 @@ fn run_plan(kind: Kind, plan: &Plan, rt: &tokio::runtime::Runtime, log: &Arc<Log
     };
     // notification subscriber (ws)
     let sub_ended = Arc::new(std::sync::atomic::AtomicBool::new(false));
-    if let AnyClient::Ws(c) = &client {
+    if let (AnyClient::Ws(c), true) = (&client, plan.subscribe) {
         if let Ok(mut rx) = c.subscribe_notifies() {
             let (log2, ended) = (log.clone(), sub_ended.clone());
             rt.spawn(async move {
@@ -408,17 +409,19 @@ fn run_plan(kind: Kind, plan: &Plan, rt: &tokio::runtime::Runtime, log: &Arc<Log
     log.push(json!({"ev": "start", "c": later}));
     let (tx, rx) = std::sync::mpsc::channel();
     match &client {
-        AnyClient::Sync(cl) => { let cl = cl.clone(); std::thread::spawn(move || { let _ = tx.send(classify(cl.call_json_with_timeout(&format!("/c{later}"), &json!({"c": later}), Duration::from_secs(5)))); }); }
-        AnyClient::Async(cl) => { let cl = cl.clone(); rt.spawn(async move { let _ = tx.send(classify(cl.call_json_with_timeout(&format!("/c{later}"), &json!({"c": later}), Duration::from_secs(5)).await)); }); }
-        AnyClient::Ws(cl) => { let cl = cl.clone(); rt.spawn(async move { let _ = tx.send(classify(cl.call_json_with_timeout(&format!("/c{later}"), &json!({"c": later}), Duration::from_secs(5)).await)); }); }
+        // no per-call timeout: after a failure the call must fail by itself, not be rescued by a timer
+        AnyClient::Sync(cl) => { let cl = cl.clone(); std::thread::spawn(move || { let _ = tx.send(classify(cl.call_json(&format!("/c{later}"), &json!({"c": later})))); }); }
+        AnyClient::Async(cl) => { let cl = cl.clone(); rt.spawn(async move { let _ = tx.send(classify(cl.call_json(&format!("/c{later}"), &json!({"c": later})).await)); }); }
+        AnyClient::Ws(cl) => { let cl = cl.clone(); rt.spawn(async move { let _ = tx.send(classify(cl.call_json(&format!("/c{later}"), &json!({"c": later})).await)); }); }
     }
+    // give the client's reader a moment to notice a dead connection, as an application calling "later" would
     match rx.recv_timeout(watchdog) {
         Ok((cls, rid, rtag, msg)) => log.push(json!({"ev": "ret", "c": later, "cls": cls, "rid": rid, "rtag": rtag, "msg": msg})),
         Err(_) => log.push(json!({"ev": "ret", "c": later, "cls": "hung", "rid": 0, "rtag": 0, "msg": "no return within 10 s"})),
     }
     // let a late response (after a timeout / cancel) arrive and be discarded before looking at the map
     std::thread::sleep(Duration::from_millis(if plan.timeout_ms.is_some() || !plan.cancel.is_empty() { 150 } else { 20 }));
-    log.push(json!({"ev": "after", "pending": client.pending_len(), "sub_ended": sub_ended.load(Ordering::SeqCst), "ws": kind == Kind::Ws}));
+    log.push(json!({"ev": "after", "pending": client.pending_len(), "sub_ended": sub_ended.load(Ordering::SeqCst), "ws": kind == Kind::Ws && plan.subscribe}));
     drop(client);
     let _ = srv_thread.join();
 }
@@ -443,7 +446,7 @@ pub fn run(a: &Args) -> i32 {
     let rt = tokio::runtime::Builder::new_multi_thread().worker_threads(4).enable_all().build().unwrap();
     let log = Arc::new(Log { seq: AtomicU64::new(0), ev: Mutex::new(vec![]) });
     let mut plans: Vec<Plan> = vec![];
-    let base = |callers: usize| Plan { callers, read: callers, order: (0..callers).collect(), junk: vec![], fault: None, timeout_ms: None, late: vec![], cancel: vec![], batch: false };
+    let base = |callers: usize| Plan { callers, read: callers, order: (0..callers).collect(), junk: vec![], fault: None, timeout_ms: None, late: vec![], cancel: vec![], batch: false, subscribe: true };
     if mode == "c04" {
         // every reply order for n callers, with one junk frame rotating through kinds and positions
         let junk_kinds: Vec<&'static str> = if kind == Kind::Ws { vec!["none", "unknown", "dup", "notify"] } else { vec!["none", "unknown", "dup"] };
@@ -452,6 +455,8 @@ pub fn run(a: &Args) -> i32 {
             pl.order = p;
             let jk = junk_kinds[i % junk_kinds.len()];
             if jk != "none" { pl.junk = vec![((i / junk_kinds.len()) % n, jk)]; }
+            // every other notify scenario runs WITHOUT a subscriber: the frame must then be dropped, never delivered to a call
+            pl.subscribe = !(jk == "notify" && (i / junk_kinds.len()) % 2 == 1);
             plans.push(pl);
         }
         // random orders with many callers, several junk frames
@@ -527,6 +532,9 @@ pub fn run(a: &Args) -> i32 {
     let mut nplans = 0u64;
     for (i, pl) in plans.iter().enumerate() {
         if i % shards != shard { continue; }
+        // a hung call costs a 10 s watchdog: three of them are evidence enough, do not pay for hundreds
+        let hung = log.ev.lock().unwrap().iter().filter(|(_, e)| e["cls"] == "hung").count();
+        if hung >= 3 { break; }
         nplans += 1;
         run_plan(kind, pl, &rt, &log, &mut rng);
     }
